@@ -27,6 +27,12 @@ fn accepted_by(s: &str, blinded_codec: bool) -> Vec<&'static str> {
 
 fn probe(ctx: &mut Ctx, orig: &str, s: &str, blinded: bool, class: &str, positions: &[usize]) {
     ctx.eval();
+    // history dimension: the corrupted string usually arrives after the valid one has been
+    // parsed on the same thread (any state the parser keeps must not make it more lenient)
+    if ctx.n_evals() % 8 == 0 {
+        let _ = guard(|| accepted_by(orig, blinded));
+        ctx.count("valid-address-parsed-immediately-before-corrupted-one");
+    }
     match guard(|| accepted_by(s, blinded)) {
         Ok(acc) => {
             if !acc.is_empty() {
@@ -67,6 +73,7 @@ fn data_start(s: &str) -> usize {
 pub fn run(ctx: &mut Ctx) {
     // exhaustive single substitutions: every representative x 3 networks, every data position
     // (witness version character included), every one of the 31 other symbols; lower and upper case
+    ctx.seen("exhaustive_subspaces", "C17: all single substitutions (every data position x 31 symbols, both cases) of 9 representatives x 3 networks; all double substitutions of the listed representatives; all one- and two-position alphanumeric HRP substitutions");
     ctx.phase("single-substitutions", 27, |ctx, k| {
         let (rep, net) = ((k % 9) as usize, (k / 9) as usize);
         let (s, blinded) = rep_address(&mut ctx.rng, rep, net);
@@ -179,6 +186,7 @@ pub fn run(ctx: &mut Ctx) {
     ctx.phase("hrp-substitutions", 27, |ctx, k| {
         let (rep, net) = ((k % 9) as usize, (k / 9) as usize);
         let (s, blinded) = rep_address(&mut ctx.rng, rep, net);
+        ctx.check(!accepted_by(&s, blinded).is_empty(), "reference-address-rejected", || json!({"address": s}));
         let ds = data_start(&s);
         let hrp_len = ds - 1;
         let alnum: Vec<u8> = (b'a'..=b'z').chain(b'A'..=b'Z').chain(b'0'..=b'9').collect();
